@@ -291,6 +291,13 @@ pub fn palette(bk: BK, ctx: &mut Ctx) -> Vec<Op> {
             Op::Audience("a".into()),
             Op::ExpirationTime(MTime::Int(1)),
             Op::ExpirationTime(MTime::Float(Item::Float(1.5))),
+            Op::ExpirationTime(MTime::Float(Item::Float(1700000000.0))),
+            Op::ExpirationTime(MTime::Float(Item::Float(0.0))),
+            Op::NotBefore(MTime::Float(Item::Float(-0.0))),
+            Op::NotBefore(MTime::Float(Item::Float(2.0))),
+            Op::IssuedAt(MTime::Float(Item::Float(-1.0))),
+            Op::IssuedAt(MTime::Float(Item::Float(9007199254740992.0))),
+            Op::IssuedAt(MTime::Float(Item::Float(f64::INFINITY))),
             Op::NotBefore(MTime::Int(-1)),
             Op::IssuedAt(MTime::Int(i64::MAX)),
             Op::CwtId(vec![]),
@@ -350,6 +357,9 @@ fn random_op(bk: BK, ctx: &mut Ctx) -> Op {
             Op::AddCritical(_) => Op::AddCritical(*ctx.rng.pick(&registry::values(Reg::HeaderParameter))),
             Op::ContentFormat(_) => Op::ContentFormat(*ctx.rng.pick(&registry::values(Reg::CoapContentFormat))),
             Op::ContentType(_) => Op::ContentType(if ctx.rng.coin() { gen::pal_text(&mut ctx.rng) } else { format!("{}{}", ["", "+", "0", "00"][ctx.rng.below(4)], ctx.rng.pick(&registry::values(Reg::CoapContentFormat))) }),
+            Op::ExpirationTime(_) => Op::ExpirationTime(gen::gen_time(&mut ctx.rng)),
+            Op::NotBefore(_) => Op::NotBefore(gen::gen_time(&mut ctx.rng)),
+            Op::IssuedAt(_) => Op::IssuedAt(gen::gen_time(&mut ctx.rng)),
             Op::Issuer(_) => Op::Issuer(gen::pal_text(&mut ctx.rng)),
             Op::Subject(_) => Op::Subject(gen::pal_text(&mut ctx.rng)),
             Op::Audience(_) => Op::Audience(gen::pal_text(&mut ctx.rng)),
